@@ -7,6 +7,9 @@ Local Open Scope N_scope.
 
 Inductive credential_type : Set := Initial | Normal.
 
+(* arithmetic at a Rust integer type narrower than u64: the value a release build computes *)
+Definition wrap (w x : N) : N := x mod 2 ^ w.
+
 Definition A : N := 100.
 Definition B : N := 1.
 Definition SIMPLE_TRANSFER : N := (300).
